@@ -141,7 +141,9 @@ type Engine struct {
 	hookCnt      *Obj // counter object (in the heap so that it forks/merges with states)
 	hookFn       FuncV
 	hookBusy     bool
+	hookSync     bool // the hook counts synchronisation operations instead of accesses to one region
 	inAtomicOp   bool
+	goDeferred   []deferredGo
 	InfeasibleOK bool // the harness declared that this shape case may be infeasible (its witnesses unreachable)
 	hookOcc      map[string]int
 	HookFires    []HookFire
